@@ -297,6 +297,17 @@ def tmpfile(suffix=""):
     return p
 
 
+def _limit_memory():
+    """child processes (harness, extracted drivers) get at most 10 GiB of address space: a case that needs more is a
+    crash of that case, not an out-of-memory kill of the whole machine"""
+    import resource
+    lim = 10 << 30
+    try:
+        resource.setrlimit(resource.RLIMIT_AS, (lim, lim))
+    except (ValueError, OSError):
+        pass
+
+
 def run_lines(cmd_prefix, cases, timeout_s=10, extra_env=None):
     """Run `cmd_prefix + [casefile]` and return one output line per case.  The harness exits with
     status 3 after printing TIMEOUT for a hanging case; resume after it."""
@@ -310,7 +321,7 @@ def run_lines(cmd_prefix, cases, timeout_s=10, extra_env=None):
             f.write("\n".join(cases[start:]) + "\n")
         cmd = list(cmd_prefix)
         try:
-            p = subprocess.run(cmd + [path], stdout=subprocess.PIPE, stderr=subprocess.PIPE,
+            p = subprocess.run(cmd + [path], stdout=subprocess.PIPE, stderr=subprocess.PIPE, preexec_fn=_limit_memory,
                                env=dict(os.environ, VERIF_SCRATCH=os.path.join(BUILD, "tmp"), **(extra_env or {})),
                                timeout=max(900, timeout_s * 4 + len(cases) * 2))
             out = p.stdout.decode("utf-8", "replace").split("\n")
